@@ -403,3 +403,119 @@ reg(Prop("C13", g_c13, {"count_extra": "C13.a", "count_missing": "C13.b", "debug
          nontrivial="multi", n_sched=2, quick=1500))
 reg(Prop("C11", g_c11, {"count_extra": "C11.a", "count_missing": "C11.c", "args": "C11.b", "value": "C11.b", "noraise": "C11.e",
                         "wrongexc": "C11.e", "raise": "C11.b"}, nontrivial="multi", n_sched=2, quick=1500))
+
+
+# ----------------------------------------------------------------------------- cache / compose / leak family
+P_C18 = gen.profile(**{**gen.GRAPH, "p_setup": 0.1, "n_stmts": (2, 9), "p_flag": 0.08, "p_tag": 0.0})
+P_C19 = gen.profile(**{**gen.GRAPH, "p_setup": 0.1, "n_stmts": (2, 10), "p_flag": 0.15, "p_default": 0.5, "n_params": (0, 3), "p_tag": 0.2})
+P_C15 = gen.profile(**{**gen.SCHED, "p_setup": 0.0, "n_stmts": (2, 8), "p_flag": 0.15, "n_params": (1, 3), "p_default": 0.5})
+
+
+def g_c18(d: Draw) -> dict:
+    spec = gen.gen_program(d, P_C18)
+    dg = spec["dags"]["main"]
+    args = draw_args(d, dg)
+    stmts = list(range(len(dg["stmts"])))
+    mode = d.weighted([("whole", 3), ("target", 3), ("deps", 4)])
+    ops: List[dict] = []
+    if dg["has_setup"] and d.bool(0.3):
+        ops.append(dict(op="setup", inst="E:main"))
+    T = [["id", i] for i in d.sample(stmts, d.int(1, min(2, len(stmts))))]
+    if mode == "whole":
+        ops.append(dict(op="executor", inst="E:main", ex="w", cache_in="c.pkl"))
+    elif mode == "target":
+        ops.append(dict(op="executor", inst="E:main", ex="w", sel={"T": T}, cache_in="c.pkl"))
+    else:
+        T = T[:1]
+        ops.append(dict(op="executor", inst="E:main", ex="w", cache_deps_of=T, cache_in="c.pkl"))
+    ops.append(dict(op="exrun", ex="w", args=args))
+    ops.append(dict(op="read_cache", file="c.pkl", inst="E:main"))
+    if mode == "whole":
+        ops.append(dict(op="executor", inst="E:main", ex="r", from_cache="c.pkl"))
+    elif mode == "target":
+        ops.append(dict(op="executor", inst="E:main", ex="r", sel={"T": T}, from_cache="c.pkl"))
+    else:
+        ops.append(dict(op="executor", inst="E:main", ex="r", cache_deps_of=T, from_cache="c.pkl"))
+    ops.append(dict(op="exrun", ex="r", args=args))
+    return base_scn(spec, ops)
+
+
+def g_c19(d: Draw) -> dict:
+    spec = gen.gen_program(d, P_C19)
+    dg = spec["dags"]["main"]
+    g = flat_graph(spec, "main")
+    stmts = sorted(n for n in g["nodes"] if n[0] == "s")
+    params = sorted(n for n in g["nodes"] if n[0] == "p")
+    ops: List[dict] = [dict(op="snapshot", inst="E:main"), dict(op="call", inst="E:main", args=draw_args(d, dg, 0.3))]
+    for j in range(d.count(1, 2, 0.3)):
+        if d.bool(0.08):
+            ins: Any = "..."
+            in_nodes = list(params)
+        else:
+            # a setup node as input would make its setup dependents depend on a DAG argument (rejected by design, C11)
+            non_setup = [n for n in stmts if not (dg["stmts"][n[1]]["k"] == "call" and spec["funcs"][dg["stmts"][n[1]]["fn"]]["setup"])]
+            in_nodes = d.sample(non_setup + params, d.int(0, min(3, len(stmts))))
+            ins = [alias_for(d, spec, "main", n) for n in in_nodes]
+        cand_out = [n for n in stmts if n not in in_nodes]
+        if not cand_out:
+            continue
+        outs = d.sample(cand_out, d.int(1, min(2, len(cand_out))))
+        single = len(outs) == 1 and d.bool(0.5)
+        name = f"cmp{j}"
+        ops.append(dict(op="compose", inst="E:main", inputs=ins, outputs=[alias_for(d, spec, "main", n) for n in outs], single=single,
+                        **{"as": name}, is_async=d.pick([None, None, True, False])))
+        n_in = len(in_nodes)
+        ops.append(dict(op="call", inst=name, args=[str(d.int(1, 60)) for _ in range(n_in)]))
+    ops.append(dict(op="call", inst="E:main", args=draw_args(d, dg, 0.3)))
+    ops.append(dict(op="snapshot", inst="E:main"))
+    return base_scn(spec, ops)
+
+
+def g_c15(d: Draw) -> dict:
+    spec = gen.gen_program(d, P_C15)
+    dg = spec["dags"]["main"]
+    from .model import HistoryModel
+    ops: List[dict] = [dict(op="results_keys", inst="E:main")]
+    faults: List[dict] = []
+    n = d.count(2, 7, 0.7)
+    calls_idx = [i for i, s in enumerate(dg["stmts"]) if s["k"] == "call"]
+    for _ in range(n):
+        mode = d.weighted([("call", 4), ("failcall", 3), ("exec", 3), ("exec2", 3), ("execfail2", 3), ("config", 1), ("failbuild", 1),
+                           ("compose", 1)])
+        j = len(ops)
+        if mode == "call":
+            ops.append(dict(op="call", inst="E:main", args=draw_args(d, dg)))
+        elif mode == "failcall" and calls_idx:
+            ops.append(dict(op="call", inst="E:main", args=draw_args(d, dg)))
+            faults.append(dict(op=[0, j], path=[["main", d.pick(calls_idx)]], when=d.pick(["late", "early"]), kind="exc"))
+        elif mode in ("exec", "exec2", "execfail2"):
+            sel = draw_selection(d, spec, "main", p_R=0.1, p_X=0.2, p_T=0.5)
+            ops.append(dict(op="executor", inst="E:main", sel=sel, ex=f"e{j}"))
+            ops.append(dict(op="exrun", ex=f"e{j}", args=draw_args(d, dg)))
+            if mode == "execfail2" and calls_idx:
+                faults.append(dict(op=[0, j + 1], path=[["main", d.pick(calls_idx)]], when="late", kind="exc"))
+            if mode != "exec":
+                ops.append(dict(op="exrun", ex=f"e{j}", args=draw_args(d, dg)))
+        elif mode == "config":
+            ops.append(dict(op="config", inst="E:main", cfg={"max_concurrency": d.int(1, 4)}, how=d.pick(["dict", "json", "yaml"])))
+        elif mode == "failbuild":
+            k = d.int(0, len(dg["stmts"]) - 1)
+            ops.append(dict(op="build", env=f"F{j}", dags=spec["order"], pauses={"main": {str(k): "raise"}}))
+        elif mode == "compose":
+            g = flat_graph(spec, "main")
+            stmts = sorted(x for x in g["nodes"] if x[0] == "s")
+            o = d.pick(stmts)
+            ops.append(dict(op="compose", inst="E:main", inputs=[], outputs=[alias_for(d, spec, "main", o)], single=True,
+                            **{"as": f"cmp{j}"}))
+        ops.append(dict(op="results_keys", inst="E:main"))
+    ops.append(dict(op="call", inst="E:main", args=draw_args(d, dg)))
+    ops.append(dict(op="results_keys", inst="E:main"))
+    return base_scn(spec, ops, faults=faults)
+
+
+reg(Prop("C18", g_c18, {"value": "C18.a", "count_extra": "C18.b", "cache_keys": "C18.c", "count_missing": "C18.d", "raise": "C18.a"},
+         nontrivial="multi", n_sched=2, quick=1500))
+reg(Prop("C19", g_c19, {"value": "C19.a", "count_extra": "C19.b", "count_missing": "C19.b", "noraise": "C19.c", "wrongexc": "C19.c",
+                        "state_leak": "C19.d", "raise": "C19.a", "args": "C19.a"}, nontrivial="multi", n_sched=2, quick=1500))
+reg(Prop("C15", g_c15, {"value": "C15.a", "count_extra": "C15.a", "count_missing": "C15.a", "args": "C15.a", "raise": "C15.a",
+                        "state_leak": "C15.b", "rerun": "C15.c", "noraise": "C15.a"}, nontrivial="multi", n_sched=2, quick=1500))
